@@ -47,6 +47,16 @@ NOTES = {
  "C14-seed4": "caught by C14 as it stood (package sizes around the 16-byte block and 4096-byte segment boundaries)",
  "C15-seed4": "caught by C15 as it stood (shorter password after a longer one: descending pass and mixed-length alphabet)",
  "C18-seed4": "missed by C18 and C19 as they stood (every date code had one section); caught since two conditional two-section codes ([<1]h:mm:ss;yyyy-mm-dd ...) are displayed for dates after a prelude that shows times of day under the same codes",
+ "C01-seed5": "caught by C01 as it stood (texts with a carriage return and no XML-special character in the atom alphabet) and by C02",
+ "C02-seed5": "caught by C02 as it stood (special string cdata-end in every text channel; the independent reader is a strict XML parser)",
+ "C03-seed5": "missed by C03 as it stood (the r-less rows of the generator always followed rows that hold a cell); caught since the case `row-without-r-after-empty-rows` was added",
+ "C04-seed5": "missed by C04 and C05 as they stood (no loaded state carried a custom number format and no edit introduced a new one); caught since the styles feature of the builders uses two custom format codes and the set-style edit adds a third",
+ "C05-seed5": "missed by C05 as it stood (its pairs of variations never touch the same attribute twice, and the twin of edit-after-load runs through the same accessor); caught since the `overwrite-same-attribute` space (every ordered pair of values of one attribute applied to one style object; memory == reload) was added",
+ "C06-seed5": "missed by C06 as it stood (merges and links never shared a cell); caught since the kind `links-on-merged-cells` was added",
+ "C07-seed5": "missed by C07 as it stood (no range addressed whole columns or whole rows); caught since the reference model and the annotated seed know one-axis ranges (C:D, 3:4, F:F as conditional-format ranges)",
+ "C08-seed5": "missed by C08 and C09 as they stood (the grammar was pure ASCII); caught by both since two string literals outside ASCII (2-, 3- and 4-byte characters) are leaves",
+ "C09-seed5": "missed by C09 as it stood (no identity path inserted rows next to whole-column references) but caught by C08; C09 catches it since the clause identity-insert-on-the-other-axis was added",
+ "C10-seed5": "missed by C10 as it stood (every coordinate was below row 30); caught since the `magnitudes` space (cells at rows beyond 16384, 65536, 10^6 and at column 16000; 10-operation alphabet without the operations that fill whole rows/columns) was added",
  "C09-seed2": "caught by C09 as it stood (translate clause: a reference leaving the grid followed by another reference) and by C03 (shared-edge family)",
 
  "C11-seed1": "missed by the check as it stood when the seed arrived (exit 0: no operation of the alphabet made a materialised sheet need a NEW numbered dependent part); caught after the edit operation also adds a comment (clause saved-content-equals-eager, the unloaded sheet's comments are replaced)",
